@@ -6,6 +6,7 @@ mod host;
 mod proj;
 mod props;
 mod src;
+mod structure;
 
 use ev::Tier;
 
